@@ -142,8 +142,11 @@ class If:
         el = None
         else_same = 0
         if self.els is not None:
-            else_same = ch.pick(2)         # 1: a single-expression else branch on the `else` line
+            else_same = ch.pick(3)         # 1: a single-expression else branch on the `else` line; 2: an else branch of several statements
+                                           #    starting on the `else` line, its other lines at the column of its first token
             esub = ind + INDENTS[ch.pick(len(INDENTS))]
+            if else_same == 2 and not self.els.single():
+                esub = " " * len(ind + "else ")
             el = self.els.lines(ch, esub)
             el_sub = esub
         if (oneline == 1 or self.force_one) and can_one:
@@ -161,6 +164,9 @@ class If:
         if el is not None:
             if else_same == 1 and self.els.single():
                 out.append(ind + "else " + self.els.stmts[0].text)
+            elif else_same == 2 and not self.els.single() and el and el[0].startswith(el_sub) and el[0][len(el_sub):len(el_sub) + 1] not in ("", "/", " ", "\t"):
+                out.append(ind + "else " + el[0][len(el_sub):])
+                out += el[1:]
             else:
                 out.append(ind + "else")
                 out += el
@@ -339,6 +345,7 @@ def docs():
             If("w > 5", B(E("frt.Println \"heavy\""), E("frt.Println \"really\""))),
             If("w > 50", B(E("frt.Println \"very heavy\"")), B(E("frt.Println \"not so\""))),
             If("w > 7", B(E("frt.Println \"seven\""), If("w > 8", B(E("frt.Println \"eight\"")), force_one=True)), B(E("frt.Println \"low\""))),
+            If("w > 9", B(E("frt.Println \"nine\"")), B(If("w > 3", B(E("frt.Println \"three\"")), force_one=True), E("frt.Println \"not nine\""))),
             E("w"))),
         Fn("main ()", B(Pipe("report Strict (Num 7)", ["frt.Printf1 \"%d\\n\""]),
                         Pipe("Op \"*\"", ["report Loose", "frt.Printf1 \"%d\\n\""]))),
